@@ -14,9 +14,9 @@
 #include <sys/wait.h>
 #include <unistd.h>
 
-enum { SC_DEFAULT, SC_PIPES_INPUT, SC_ERR2OUT, SC_DISCARD, SC_PATH, SC_FILE, SC_HANDLE, SC_PARENT, SC_WORKDIR, SC_ENV, SC_NONBLOCK, SC_FORK, SC_STDSRC, NSCN };
+enum { SC_DEFAULT, SC_PIPES_INPUT, SC_ERR2OUT, SC_DISCARD, SC_PATH, SC_FILE, SC_HANDLE, SC_PARENT, SC_WORKDIR, SC_ENV, SC_NONBLOCK, SC_FORK, SC_STDSRC, SC_PARENT_CLOSED, NSCN };
 static const char *const scn_names[] = { "default", "pipes+input", "stderr-to-stdout", "discard", "path", "file", "handle", "parent",
-                                         "workdir+relative", "env-extend", "nonblocking", "fork", "stderr-to-parent-stdout-by-handle" };
+                                         "workdir+relative", "env-extend", "nonblocking", "fork", "stderr-to-parent-stdout-by-handle", "parent,stdin+stderr-closed" };
 
 enum { H_DESTROY, H_WAIT, H_ROUNDTRIP, H_DRAIN, H_TERMKILL, H_KILLWAIT, H_RUNEX, NHIST };
 static const char *const hist_names[] = { "destroy", "wait", "roundtrip", "drain", "term-wait-kill", "kill-wait", "run_ex" };
@@ -199,6 +199,16 @@ static void scn_build(int s, int hist, struct scn *c)
     case SC_FORK:
       c->o.fork = true;
       c->argv = NULL;
+      break;
+    case SC_PARENT_CLOSED:
+      /* the parent has no stdin and no stderr: those streams fall back to the null device, and what the library opens lands on 0-2 */
+      close(0);
+      close(2);
+      c->o.redirect.parent = true;
+      for (int i = 0; i < 3; i++) {
+        c->ex.type[i] = REPROC_REDIRECT_PARENT;
+        ident_obj_from_fd(&c->ex.obj[i], i);
+      }
       break;
     case SC_STDSRC:
       /* a source that is itself a standard descriptor of the parent, for another stream: the child copies it before installing anything */
